@@ -300,6 +300,11 @@ class ConcurrentTaskSet : public TaskSetBase {
       F&& f,
       bool skipRecheck = false,
       float poolRecursiveLoadFactor = kDefaultPoolRecursiveLoadFactor) {
+    // A canceled set starts no further task bodies.  The queued paths below test the flag inside the
+    // packaged task, but the inline fall-backs for an overloaded pool would run f() unconditionally.
+    if (DISPENSO_EXPECT(canceled(), false)) {
+      return;
+    }
     if (cost_ == TaskCost::kHeavy) {
       schedulePlaced(std::forward<F>(f), skipRecheck, poolRecursiveLoadFactor);
       return;
